@@ -385,7 +385,8 @@ func Main(p *Property) {
 	out := flag.String("out", "", "")
 	hashes := flag.String("hashes", "", "")
 	replay := flag.String("replay", "", "")
-	noShrink := flag.Bool("noshrink", false, "")
+	_ = flag.Bool("noshrink", false, "ignored (kept for compatibility)")
+	shrink := flag.String("shrink", "", "minimise the tape of this replay file")
 	plan := flag.Bool("plan", false, "emit the number of cases of the tier and exit")
 	digest := flag.Bool("digest", false, "emit a per-case digest line (determinism self-test)")
 	flag.Parse()
@@ -418,6 +419,38 @@ func Main(p *Property) {
 			n = p.Plan(*tier, *seed)
 		}
 		emit(&outLine{K: "plan", Cases: int64(n)})
+		fd.Close()
+		return
+	}
+
+	if *shrink != "" {
+		data, err := os.ReadFile(*shrink)
+		if err != nil {
+			fmt.Fprintln(os.Stderr, "worker:", err)
+			os.Exit(2)
+		}
+		var rf ReplayFile
+		if err := json.Unmarshal(data, &rf); err != nil {
+			fmt.Fprintln(os.Stderr, "worker:", err)
+			os.Exit(2)
+		}
+		emit(&outLine{K: "start", Case: rf.Case})
+		v, _ := RunOnce(p, tape.Replay(rf.Tape), rf.Tier, rf.Case, false)
+		if v == nil || v.Fingerprint != rf.Fingerprint {
+			emit(&outLine{K: "nondeterministic", Case: rf.Case, V: &Violation{Fingerprint: rf.Fingerprint}, Tape: rf.Tape,
+				Msg: "replay of the recorded tape did not reproduce the violation"})
+			fd.Close()
+			return
+		}
+		vals, runs := Shrink(p, rf.Tape, rf.Tier, rf.Case, rf.Fingerprint, 1500, time.Now().Add(45*time.Second))
+		v2, _ := RunOnce(p, tape.Replay(vals), rf.Tier, rf.Case, true)
+		if v2 == nil || v2.Fingerprint != rf.Fingerprint {
+			emit(&outLine{K: "nondeterministic", Case: rf.Case, V: &Violation{Fingerprint: rf.Fingerprint}, Tape: vals,
+				Msg: "the minimised tape stopped reproducing the violation"})
+			fd.Close()
+			return
+		}
+		emit(&outLine{K: "viol", Case: rf.Case, V: v2, Tape: vals, Orig: len(rf.Tape), Runs: runs})
 		fd.Close()
 		return
 	}
@@ -478,21 +511,9 @@ func Main(p *Property) {
 			continue
 		}
 		seenFP[v.Fingerprint] = true
-		vals := t.Values()
-		orig := len(vals)
-		runs := 0
-		if !*noShrink {
-			vals, runs = Shrink(p, vals, *tier, i, v.Fingerprint, 2000, time.Now().Add(60*time.Second))
-		}
-		// final traced run of the minimised tape
-		v2, _ := RunOnce(p, tape.Replay(vals), *tier, i, true)
-		if v2 == nil || v2.Fingerprint != v.Fingerprint {
-			// must not happen: replay is a pure function of the tape
-			emit(&outLine{K: "nondeterministic", Case: i, V: v, Tape: t.Values(),
-				Msg: "replay of the recorded tape did not reproduce the violation"})
-			continue
-		}
-		emit(&outLine{K: "viol", Case: i, V: v2, Tape: vals, Orig: orig, Runs: runs})
+		// minimisation is done afterwards, once per fingerprint of the whole
+		// batch, by a worker started with -shrink
+		emit(&outLine{K: "viol-raw", Case: i, V: v, Tape: t.Values(), Orig: t.Used()})
 	}
 	for k := range classes {
 		total.Classes = append(total.Classes, k)
